@@ -2,6 +2,7 @@
 package c07
 
 import (
+	"bufio"
 	"bytes"
 	"errors"
 	"fmt"
@@ -39,6 +40,8 @@ type Case struct {
 	// StdKind selects the dynamic type of that source: bytes.Reader (default), bytes.Buffer, strings.Reader,
 	// bufio.Reader, os.File, io.SectionReader - loaders must not behave differently for any of them
 	StdKind string `json:"std_kind,omitempty"`
+	// Seekable: the instrumented (short-reading, possibly failing) source also implements io.Seeker
+	Seekable bool `json:"seekable,omitempty"`
 }
 
 var stdKinds = src.StdKinds
@@ -47,7 +50,42 @@ func stdSource(kind string, prefix int, data []byte) (io.Reader, func() int, fun
 	return src.Std(kind, prefix, data, filepath.Join(ev.Root(), "out", "run", "C07"))
 }
 
+// drain reads the stream to its end.  sizes[0] < 0 selects another standard way of consuming a reader:
+// -1 io.Copy (uses WriteTo when the stream offers it), -2 io.ReadAll, -3 bufio.Reader.WriteTo, -4 ReadByte when
+// the stream offers io.ByteReader (else single-byte reads)
 func drain(r io.Reader, sizes []int, limit int) (out []byte, err error, stalled bool) {
+	if len(sizes) > 0 && sizes[0] < 0 {
+		var buf bytes.Buffer
+		switch sizes[0] {
+		case -1:
+			_, err = io.Copy(&buf, r)
+		case -2:
+			var b []byte
+			b, err = io.ReadAll(r)
+			buf.Write(b)
+		case -3:
+			_, err = bufio.NewReaderSize(r, 512).WriteTo(&buf)
+		default:
+			if br, ok := r.(io.ByteReader); ok {
+				for {
+					c, e := br.ReadByte()
+					if e != nil {
+						if e != io.EOF {
+							err = e
+						}
+						break
+					}
+					buf.WriteByte(c)
+					if buf.Len() > limit+1<<20 {
+						return buf.Bytes(), nil, true
+					}
+				}
+			} else {
+				return drain(r, []int{1}, limit)
+			}
+		}
+		return buf.Bytes(), err, false
+	}
 	if len(sizes) == 0 {
 		sizes = []int{32768}
 	}
@@ -96,6 +134,8 @@ func check(c Case) (kind, what string, nt bool) {
 		if n := remaining(); n >= 0 {
 			s.Pos = int64(len(c.Data)) - int64(n)
 		}
+	} else if c.Seekable {
+		o = ld.Run(c.Loader, src.Seekable{Source: s})
 	} else {
 		o = ld.Run(c.Loader, s)
 	}
@@ -148,7 +188,7 @@ func firstDiff(a, b []byte) int {
 }
 
 var schedules = [][]int{nil, {1}, {7}, {4096}, {3, 1, 4097, 2, 64, 5}}
-var drains = [][]int{{32768}, {1}, {5, 1, 300}, {4096}}
+var drains = [][]int{{32768}, {1}, {5, 1, 300}, {4096}, {-1}, {-2}, {-3}, {-4}}
 
 type input struct {
 	name string
@@ -287,7 +327,7 @@ func TestC07(t *testing.T) {
 							run(Case{Seed: in.name, Data: in.data[:p], FaultAt: -1, Drain: dr, Loader: loader, Std: 1 + int(h/4%3)*27, StdKind: stdKinds[int(h/12)%len(stdKinds)]}, in.in[p])
 						}
 						// truncation at p
-						run(Case{Seed: in.name, Data: in.data[:p], FaultAt: -1, Sizes: sc, DataWithEOF: h%3 == 0, Drain: dr, Loader: loader}, in.in[p])
+						run(Case{Seed: in.name, Data: in.data[:p], FaultAt: -1, Sizes: sc, DataWithEOF: h%3 == 0, Drain: dr, Loader: loader, Seekable: h%5 == 1}, in.in[p])
 						// sticky fault at p
 						if p <= len(in.data) {
 							run(Case{Seed: in.name, Data: in.data, FaultAt: int64(p), FaultWithData: h%2 == 0, FaultErr: src.FaultErrNames[int(h/5)%len(src.FaultErrNames)], Sizes: sc, Drain: dr, Loader: loader}, false)
@@ -384,6 +424,10 @@ func TestC07(t *testing.T) {
 		}
 		c.DataWithEOF = rapid.Bool().Draw(rt, "dataeof")
 		c.Drain = rapid.SliceOfN(rapid.SampledFrom([]int{1, 2, 3, 100, 4096, 32768}), 1, 4).Draw(rt, "drain")
+		if rapid.IntRange(0, 2).Draw(rt, "stddrain") == 0 {
+			c.Drain = []int{rapid.IntRange(-4, -1).Draw(rt, "drainmode")}
+		}
+		c.Seekable = c.Std == 0 && rapid.IntRange(0, 3).Draw(rt, "seekable") == 0
 		ev.Eval(1)
 		k, w, nt := check(c)
 		if nt {
